@@ -134,6 +134,16 @@ CLAIMED.update({
    technique="Coq proof (loop invariants over the rule/shape/iteration loops; uniqueness of sorting) + vm_compute correspondence + differential against an independent reference implementation",
    ref="4 (C15)"),
 })
+CLAIMED.update({
+ "C14": dict(
+   text="Tie A: the pipeline programs generated from Validator.run / RuleExpandRunner.run / mix_in_ontology are executed in Coq under content summaries (inoculate = add the ontology's axioms, _run_pre_inference = add the closure of the union graph, apply_rules = add rule output, clone_graph = copy). "
+        "Decided over all 1280 option valuations and lifted: the object validated in the end holds data, then axioms (iff ont_graph), then closure (iff inference active), then rule output - independent of the container kind and of inplace; hence, for ANY mixing/closure/rule functions, its denotation equals the graph expanded beforehand in the same way. "
+        "Quad-level theorems: cloning keeps the union graph, writing into a named graph adds exactly the written triples, every distribution of T over named graphs has union T. "
+        "On the real code: content traces, the callees on random distributions vs the quad model, and the differential of validate() on Graph vs Dataset/ConjunctiveGraph distributions (inplace on/off) and vs plain validation of the pre-expanded graph.",
+   note="Trusted: Coq kernel + vm_compute; translator T1 + PyMini; the content summaries (checked against the real callees at quad level); rdflib's default_union reads; owlrl and the axiom selection of inoculate are used as given. Holds after fix commit 7a16a45 (ConjunctiveGraph + ont_graph + inplace).",
+   technique="translation to a deep embedding + Coq evaluation over a finite domain (content view) + quad-level set proofs + callee correspondence + container/expansion differential on /repo",
+   ref="4 (C14)"),
+})
 NOT_YET = {}
 ALL = ["C%02d" % i for i in range(1, 21)]
 REASONS = {}
